@@ -334,7 +334,7 @@ def run(R, ctx):
         "Narrow structural part of crash-freedom: token references of foreign text are always replaced (coverage of "
         "replace_referenced_tokens over all token slots + MIR must-pass rule in the bundler), the converter's own call graph is "
         "acyclic, the parser entry is fallible and panic-free, and the worker turns failures into error values. Does NOT decide "
-        "panic-freedom of arbitrary rule pipelines (needs value reasoning); a census of panic sites is recorded for information."
+        "panic-freedom of arbitrary rule pipelines (needs value reasoning); a census of panic sites is recorded for information. Decision / transfer functions among these are decided by finite-domain evaluation of their typed tree (sa/peval.py): every point of a small abstract domain is evaluated and compared with the reference; nothing is sampled and no program input exists."
     )
     R.assumptions += ["full_moon's own recursion is outside the claim (as in the property)", "panicking functions are recognised by name"]
     walkers.walker_cover(R, ctx, "C12.tokens-cover", "replace_referenced_tokens")
